@@ -14,6 +14,8 @@ import (
 )
 
 type GoR struct {
+	lastVisitKey string
+	delayed   bool // preempted with a long pause: not scheduled again before the others are quiescent
 	id        int
 	resume    chan struct{}
 	done      bool
@@ -31,6 +33,7 @@ type yieldMsg struct {
 }
 
 type Sched struct {
+	visits      map[string]int // synchronisation operation at a source line -> times reached on this path
 	gs          []*GoR
 	cur         *GoR
 	yieldCh     chan yieldMsg
@@ -116,6 +119,23 @@ func (ex *Exec) runScheduled(fn *ssa.Function) {
 			ex.reportDeadlock(s.deadlock)
 			return
 		}
+		// a goroutine preempted with a long pause stays out until every other goroutine is blocked or done (this is
+		// exactly what the native confirmation does: a sleep at the preemption point)
+		{
+			var awake []*GoR
+			for _, g := range enabled {
+				if !g.delayed {
+					awake = append(awake, g)
+				}
+			}
+			if len(awake) == 0 {
+				for _, g := range enabled {
+					g.delayed = false
+				}
+			} else {
+				enabled = awake
+			}
+		}
 		var next *GoR
 		curEnabled := false
 		for _, g := range enabled {
@@ -135,14 +155,21 @@ func (ex *Exec) runScheduled(fn *ssa.Function) {
 						order = append(order, g)
 					}
 				}
-				k := ex.choose(len(order), "sched")
+				// 0: no preemption; 1..n-1: switch to another goroutine (the preempted one competes again at the next
+				// blocking point); n..2n-2: the same with a long pause of the preempted goroutine
+				n := len(order)
+				k := ex.choose(2*n-1, "sched")
+				if k >= n {
+					k -= n - 1
+					s.cur.delayed = true
+				}
 				next = order[k]
 				if k != 0 {
 					s.preemptions++
 					// remember where the preempted goroutine was stopped: the native replay inserts a pause there
 					if fr := ex.curFrame; fr != nil {
 						pos := ex.posOf(fr, fr.curPos)
-						s.pauses = append(s.pauses, PausePoint{File: pos.Filename, Line: pos.Line, Kind: s.cur.blockDesc, Func: shortFn(fr.fn.String())})
+						s.pauses = append(s.pauses, PausePoint{File: pos.Filename, Line: pos.Line, Kind: s.cur.blockDesc, Func: shortFn(fr.fn.String()), Occ: s.visits[s.cur.lastVisitKey]})
 					}
 				}
 			} else {
@@ -241,6 +268,9 @@ type PausePoint struct {
 	Line int    `json:"line"`
 	Kind string `json:"kind"`
 	Func string `json:"func"`
+	// Occ: the preempted visit is the Occ-th time (over all goroutines, on this path) that this synchronisation
+	// operation at this source line was reached; the native pause applies to that visit only
+	Occ int `json:"occ"`
 }
 
 var schedTrace = os.Getenv("VERIF_SCHEDTRACE") != ""
@@ -268,6 +298,14 @@ func (ex *Exec) yield(desc string) {
 		return
 	}
 	g := s.cur
+	if fr := ex.curFrame; fr != nil {
+		pos := ex.posOf(fr, fr.curPos)
+		if s.visits == nil {
+			s.visits = map[string]int{}
+		}
+		g.lastVisitKey = fmt.Sprintf("%s:%d:%s", pos.Filename, pos.Line, desc)
+		s.visits[g.lastVisitKey]++
+	}
 	// fast path: nobody else could run
 	others := false
 	for _, o := range s.gs {
